@@ -86,10 +86,11 @@ def runHstep (kv : List (String × String)) : String := Id.run do
     (square root = identity, so `_norm` yields the radicand) -/
 private def evalSpec (cfg fn : String) (xs ys : Array Int) : Option Int :=
   let fo : FOps := { intFO with sqrt32 := id, sqrt64 := id }
-  let m32 : Nat → BitVec 32 := fun i => BitVec.ofInt 32 (xs.getD i 0)
-  let m64 : Nat → BitVec 64 := fun i => BitVec.ofInt 64 (xs.getD i 0)
-  let n32 : Nat → BitVec 32 := fun i => BitVec.ofInt 32 (ys.getD i 0)
-  let n64 : Nat → BitVec 64 := fun i => BitVec.ofInt 64 (ys.getD i 0)
+  -- memory behind the pointers: 32-bit words (a double element is two words)
+  let m32 : Reg := reg32 xs
+  let m64 : Reg := reg64 xs
+  let n32 : Reg := reg32 ys
+  let n64 : Reg := reg64 ys
   match cfg with
   | "avx512" =>
     match fn with
